@@ -156,18 +156,19 @@ def _roundtrip(fmt):
         save, load = _io()
         h, T, U, k, probes, nontrivial = build_object(case, ctx)
 
-        def round_trip(phase):
-            before = k.observe(h, U, probes)
+        def round_trip(phase, obj=None, src_is_text_loaded=False):
+            obj = h if obj is None else obj
+            before = k.observe(obj, U, probes)
             with tempfile.TemporaryDirectory() as d:
                 path = os.path.join(d, "g." + fmt)
-                save(h, path, binary=(fmt == "hgx"))
+                save(obj, path, binary=(fmt == "hgx"))
                 loaded = load(path)
             what = "%s%s saved as .%s and loaded" % (T["type"], phase, fmt)
             require(type(loaded).__name__ == T["type"],
                     lambda: "%s: type of the loaded object is %s, expected %s"
                     % (what, type(loaded).__name__, T["type"]), key="type")
             after = k.observe(loaded, U, probes)
-            eo, ehg = _norm_obs(before, False)
+            eo, ehg = _norm_obs(before, src_is_text_loaded)
             oo, ohg = _norm_obs(after, fmt == "json")
             d = diff_obs(eo, oo)
             require(d is None, lambda: "%s: %s   (built by %s)" % (what, d, _describe(ctx.trace)),
@@ -212,6 +213,16 @@ def _roundtrip(fmt):
                     lambda: "%s, then %r applied to the original and to the loaded object: %s"
                     % (what, ops, d), key="loaded-diverges-after-further-calls")
             ctx.label("further_calls_checked")
+        # a loaded object is itself a hypergraph the property ranges over (its hyperedge
+        # metadata may now carry the reserved keys the text format stores): change a weight
+        # on it and take it through the same format once more
+        if T["weighted"] and len(T["order"]) > 1:
+            key2 = T["order"][1]
+            new_w = T["edges"][key2][0] + 3
+            ad.r_set_weight(loaded, ad.record_of_key(key2, 1), new_w)
+            round_trip(" (loaded object after set_weight(%r, %r), second hop)"
+                       % (k.probe(key2), new_w), obj=loaded, src_is_text_loaded=(fmt == "json"))
+            ctx.label("second_hop_after_set_weight")
         ctx.nontrivial(nontrivial)
     return check
 
